@@ -5,6 +5,41 @@ package cdi
 func init() {
 	vregister("H_C04_unresolved", H_C04_unresolved)
 	vregister("H_C04_nil", H_C04_nil)
+	vregister("H_C04_many", H_C04_many)
+}
+
+// long requests: up to MANY names, each a resolvable key or one of two unknown names (repetitions included)
+func H_C04_many() {
+	c, keys := vMkCache(1, false)
+	n := nondetLen("nreq", 4, vparam("MANY"))
+	req := make([]string, n)
+	var miss []string
+	for i := range req {
+		switch nondetChoice("r"+string(rune('a'+i)), 3) {
+		case 0:
+			req[i] = keys[0]
+		case 1:
+			req[i] = "v9/c=unknown"
+			miss = append(miss, req[i])
+		case 2:
+			req[i] = "v8/c=other"
+			miss = append(miss, req[i])
+		}
+	}
+	shape := vDrawOCI("oci.", 1, 0, 0)
+	o := vMkOCI(shape)
+	tok := vfreeze(o)
+	want := append([]string(nil), req...)
+	unresolved, err := c.InjectDevices(o, req...)
+	vassert("request-slice-not-modified", vEqStrs(req, want))
+	if len(miss) == 0 {
+		vreach("many-all-resolved")
+		return
+	}
+	vreach("many-misses")
+	vassert("many-miss-error", err != nil)
+	vassert("many-miss-names-exact", vEqStrs(unresolved, miss))
+	vunchanged(tok, "many-miss-leaves-oci-untouched")
 }
 
 func vRequestMenu(keys []string, pos string) string {
